@@ -127,11 +127,11 @@ func (e *Engine) setupExt() {
 			e.end("unsupported", "sha256 of symbolic data")
 		}
 		sum := sha256.Sum256([]byte(s))
-		out := make(arrayV, 32)
-		for i := range out {
-			out[i] = BV(8, uint64(sum[i]))
+		out := &byteArr{b: make([]*Term, 32)}
+		for i := range out.b {
+			out.b[i] = BV(8, uint64(sum[i]))
 		}
-		return out
+		return byteArrayV{out}
 	}
 	x["time.Now"] = func(e *Engine, fr *frame, a []value) value { return zero(e.namedType("time", "Time")) }
 	x["(time.Time).UnixNano"] = func(e *Engine, fr *frame, a []value) value { return BV(64, 42) }
